@@ -880,11 +880,9 @@ fn flag_gen_pass(which: &str, seed: u64, n: u64, only: u64, tr: &mut Option<std:
         if only != u64::MAX && k != only {
             continue;
         }
-        // the Hangul shaper places no UNSAFE_TO_CONCAT flag at all (known class hangul_shaper of the corpus sweep: every
-        // second redistribution of Hangul text fails); the generated Hangul family serves C03 only
-        if prop == "C04" && crate::flaggen::family_of(k) == "hangul" {
-            continue;
-        }
+        // the Hangul shaper places no UNSAFE_TO_CONCAT flag of its own (known class hangul_shaper of the corpus sweep);
+        // for C04 the generated Hangul family is restricted to LV syllables with optional combining trailing jamo
+        let c04_hangul = prop == "C04" && crate::flaggen::family_of(k) == "hangul";
         let spec = crate::flaggen::gen_font(seed, k);
         let data = crate::fontgen::build(&spec);
         let name = format!("flaggen-{}-{}.ttf", seed, k);
@@ -897,7 +895,7 @@ fn flag_gen_pass(which: &str, seed: u64, n: u64, only: u64, tr: &mut Option<std:
         let mut r = Rng::new(seed ^ (k.wrapping_mul(0x9E37_79B9)) ^ 0x7E57);
         let before = cnt.fails;
         for j in 0..TEXTS {
-            let req = crate::flaggen::gen_req(&mut r, k);
+            let req = if c04_hangul { crate::flaggen::gen_req_hangul_lv_t(&mut r) } else { crate::flaggen::gen_req(&mut r, k) };
             trace(tr, &format!("{} {} {} [{}]", k, j, crate::flaggen::family_of(k), fmt_req(&req)));
             if prop == "C03" {
                 check_c03(&fi, &req, &mut cnt);
